@@ -57,9 +57,9 @@ type collateGen struct {
 }
 
 func newCollateGen(seed int64, tier string) *collateGen {
-	g := &collateGen{seed: seed, tier: tier, nRandom: 3000, byCS: map[string][]string{}}
+	g := &collateGen{seed: seed, tier: tier, nRandom: 2000, byCS: map[string][]string{}}
 	if tier == "thorough" {
-		g.nRandom = 40000
+		g.nRandom = 20000
 	}
 	it := sql.NewCollationsIterator()
 	for {
@@ -135,7 +135,10 @@ func (g *collateGen) Len() int { return len(g.sys) + g.nRandom }
 
 func (g *collateGen) decorate(rnd *rand.Rand, x class) string {
 	s := x.SQL
-	cs := pick(rnd, charsets)
+	cs := pick(rnd, implCS)
+	if rnd.Intn(10) == 0 {
+		cs = pick(rnd, charsets)
+	}
 	switch rnd.Intn(8) {
 	case 0:
 		return s + " COLLATE " + pick(rnd, collations)
